@@ -6,6 +6,8 @@ namespace NextIndex
 structure V where
   uid : Nat
   p : Nat
+  chrom : String := ""
+  pos : Int := 0
 deriving Repr, DecidableEq
 
 /-- state of the scan: (best_var, best_var_p); `one` is the encoding of 1.0, `p1` of `--clump-p1` -/
